@@ -258,6 +258,21 @@ func Fixed() []*Case {
 			p.HTTPRoute("default", "hr0", 3, wholeGW, nil, ruleTo("/", "svc-a")))
 		add(fmt.Sprintf("distinct-keypairs-%v", sizes), objs...)
 	}
+	// 13. Secret / ConfigMap NAMES with dots: identical up to the last dot, or ending in .pem / .crt / .conf — each on its own
+	// listener (policy); every listener must present ITS Secret, every backend be verified against ITS CA (seeded change C16-r5m1)
+	add("dotted-object-names",
+		p.TLSSecret("default", "example.com-tls", 1), p.TLSSecret("default", "example.org-tls", 2),
+		p.TLSSecret("default", "edge.pem", 3), p.TLSSecret("default", "site.conf", 15), p.TLSSecret("default", "site.crt", 16),
+		caConfigMap("default", "ca.payments", 7), caConfigMap("default", "ca.orders", 8),
+		mkBTP(btpSpec{ns: "default", name: "pol-p", age: 5, targets: []string{"svc-b"}, host: "b.example.com", cmRefs: cmRef("ca.payments")}),
+		mkBTP(btpSpec{ns: "default", name: "pol-q", age: 6, targets: []string{"svc-c"}, host: "c.example.com", cmRefs: cmRef("ca.orders")}),
+		p.Gateway("default", "gw", p.DefaultClass, 2,
+			p.Listener{Name: "d0", Port: 443, Protocol: "HTTPS", Hostname: "foo.example.com", CertRefs: []string{"example.com-tls"}},
+			p.Listener{Name: "d1", Port: 443, Protocol: "HTTPS", Hostname: "bar.org", CertRefs: []string{"example.org-tls"}},
+			p.Listener{Name: "d2", Port: 443, Protocol: "HTTPS", Hostname: "cafe.example.com", CertRefs: []string{"edge.pem"}},
+			p.Listener{Name: "d3", Port: 8443, Protocol: "HTTPS", Hostname: "a.example.com", CertRefs: []string{"site.conf"}},
+			p.Listener{Name: "d4", Port: 8443, Protocol: "HTTPS", Hostname: "a.x.org", CertRefs: []string{"site.crt"}}),
+		p.HTTPRoute("default", "hr0", 3, wholeGW, nil, ruleTo("/b", "svc-b"), ruleTo("/c", "svc-c"), ruleTo("/a", "svc-a")))
 	// 8./9. exact hostname of the same LENGTH as the covering wildcard, both listener orders, route accepted by both
 	for i, order := range [][2]int{{0, 1}, {1, 0}} {
 		ls := []p.Listener{
@@ -296,7 +311,12 @@ func GenTLS(r *rng.R) *Case {
 	// good Secrets of other sizes (padding after the certificate block): which key-pair file is larger varies per case
 	c.Objs = append(c.Objs, padCert(p.TLSSecret(gwNS, "tls-big", 15), rng.Pick(r, []int{0, 200, 700})),
 		padCert(p.TLSSecret(gwNS, "tls-mid", 16), rng.Pick(r, []int{0, 100, 350})))
-	good := []string{"tls-a", "tls-b", "tls-c", "tls-big", "tls-mid"}
+	// dotted names (legal for Secrets and ConfigMaps): equal up to the LAST dot, or ending in a file extension
+	dotted := []string{"example.com-tls", "example.org-tls", "edge.pem", "edge.crt", "site.conf"}
+	for i, n := range dotted {
+		c.Objs = append(c.Objs, p.TLSSecret(gwNS, n, 30+i))
+	}
+	good := []string{"tls-a", "tls-b", "tls-c", "tls-big", "tls-mid", "example.com-tls", "edge.pem"}
 	bad := []string{"tls-mal", "tls-opaque", "tls-swapped", "tls-nokey", "tls-missing"}
 	cross := []string{otherNS + "/tls-a", otherNS + "/tls-x", otherNS + "/tls-y", otherNS + "/tls-mal", otherNS + "/tls-missing"}
 
@@ -431,6 +451,16 @@ func GenTLS(r *rng.R) *Case {
 		}
 		c.tag("distinct-keypairs")
 	}
+	// 2–4 further listeners whose Secrets have dotted names identical up to the last dot / ending in an extension
+	if r.Chance(20, 100) {
+		hosts := []string{"d0.example.com", "d1.example.com", "d2.bar.org", "d3.bar.org"}
+		perm := r.Intn(len(dotted))
+		for i, k := 0, r.Range(2, 4); i < k; i++ {
+			ls = append(ls, p.Listener{Name: fmt.Sprintf("dn%d", i), Protocol: "HTTPS", Port: rng.Pick(r, []int32{443, 8443}),
+				Hostname: hosts[i], CertRefs: []string{dotted[(perm+i)%len(dotted)]}})
+		}
+		c.tag("dotted-secret-names")
+	}
 	gw := p.Gateway(gwNS, "gw", p.DefaultClass, 2, ls...)
 	for i := range gw.Spec.Listeners {
 		gl := &gw.Spec.Listeners[i]
@@ -464,6 +494,11 @@ func GenTLS(r *rng.R) *Case {
 			&apiv1.ConfigMap{ObjectMeta: p.Meta(ns, "ca-bad", 0), Data: map[string]string{"ca.crt": "garbage"}})
 		cert, _ := p.CertPair(14)
 		c.Objs = append(c.Objs, &apiv1.ConfigMap{ObjectMeta: p.Meta(ns, "ca-bin", 0), BinaryData: map[string][]byte{"ca.crt": cert}})
+		c.Objs = append(c.Objs, caConfigMap(ns, "ca.payments", 21+off), caConfigMap(ns, "ca.orders", 22+off))
+	}
+	dottedCAs := r.Chance(20, 100)
+	if dottedCAs {
+		c.tag("dotted-configmap-names")
 	}
 	age := 10
 	addBTP := func(b btpSpec) {
@@ -493,10 +528,17 @@ func GenTLS(r *rng.R) *Case {
 				tg = append(tg, "svc-d")
 				c.tag("btp-two-targets")
 			}
-			addBTP(btpSpec{ns: ns, name: "pol-p", targets: tg, host: "b.example.com", cmRefs: cmRef("ca-1")})
+			caP := "ca-1"
+			if dottedCAs {
+				caP = "ca.payments"
+			}
+			addBTP(btpSpec{ns: ns, name: "pol-p", targets: tg, host: "b.example.com", cmRefs: cmRef(caP)})
 		}
 		if r.Chance(70, 100) {
 			b := btpSpec{ns: ns, name: "pol-q", targets: []string{"svc-c"}, host: "c.example.com", cmRefs: cmRef("ca-2")}
+			if dottedCAs {
+				b.cmRefs = cmRef("ca.orders")
+			}
 			switch r.Intn(6) {
 			case 0:
 				b.cmRefs = cmRef("ca-1") // differs from P by hostname only
